@@ -250,8 +250,19 @@ impl Sim {
         let mut next_idx = Vec::new();
         let mut outstanding = Vec::new();
         let mut outstanding_n = Vec::new();
+        // client ids: any u64 is a legal id; in a quarter of the executions some clients get boundary values
+        // (own random stream, the rest of the execution does not depend on it)
+        let mut idrng = Rng::new(run_seed ^ 0x1D_B0DA_7135);
+        let edge_ids = idrng.chance(1, 4);
+        const EDGE_IDS: [u64; 7] = [0, 1, u64::MAX, u64::MAX - 1, 1 << 63, (1 << 63) - 1, 1 << 32];
         for k in 0..cfg.n_clients {
-            let id = 1000 + k as u64 * 7 + rng.below(5);
+            let mut id = 1000 + k as u64 * 7 + rng.below(5);
+            if edge_ids && idrng.chance(1, 2) {
+                let e = *idrng.pick(&EDGE_IDS);
+                if !ids.contains(&e) {
+                    id = e;
+                }
+            }
             server.add_connection(id);
             let mut c = RenetClient::new(cfg.connection_config());
             c.set_connected();
